@@ -21,6 +21,8 @@ class BlastHooks(QHooks):
     limit: the bytes written, as a sequence of tokens, against the documented encoder"""
     tracked = frozenset(['G:line'])
 
+    maxlines = 4
+
     def __init__(self, limit):
         self.limit = limit
         self.sites = {}
@@ -50,7 +52,7 @@ class BlastHooks(QHooks):
             raise AnalysisBroken('pop3d blast: getln() match pointer not an object address')
         inp = tuple(g1(E, '$in', ()))
         outs = [Outcome(ret=fs(-1)), Outcome(ret=fs(0), sets={mp: fs(0), 'G:line.len': fs(0), '$in': fs(inp + (('eof', None, 0),))}, log='end of message')]
-        if len(inp) >= 4:
+        if len(inp) >= self.maxlines:
             return outs
         for match in (1, 0):
             for kind, ln, first in (('empty', 0, None), ('text', 2, 'dot'), ('text', 2, 'x')):
@@ -289,9 +291,10 @@ def run(ctx):
     bl = prog.fn('blast', u)
     st = 0
     nret = 0
-    for lim in (0, 1, 2, 3):
+    for lim in ctx.deep((0, 1, 2, 3), (0, 1, 2, 3, 4)):
         H = BlastHooks(lim)
-        eng = Engine(db, prog, H, max_states=400000)
+        H.maxlines = ctx.deep(4, 5)
+        eng = Engine(db, prog, H, max_states=4000000)
         fid = eng.frame_id(bl)
         lp = [p_ for p_ in bl.params if 'long' in bl.param_types.get(p_, '')]
         if len(lp) != 1:
